@@ -16,9 +16,27 @@ MIX = {"newvec": 3, "newtab_dict": 3, "newtab_vecs": 1, "copy": 1, "slice": 1, "
        "sett": 5, "setattr": 3, "fp": 12, "read": 1, "drop": 1, "rename": 1, "math": 1}
 
 
+P61 = (1 << 61) - 1
+
+
+def planted():
+    """deterministic histories: hash-colliding writes (known finding KF1), hash-equal writes (exempt),
+    and every write path between two fingerprint() calls on a vector and on its table."""
+    out = []
+    for a, b in [(1, -(P61 - 1)), (0, P61), (1, P61 + 1), (2, 2.0), (3, 5), (None, 0), (7, None)]:
+        out.append({"prog": [["newvec", [5, a, 7], "a", None], ["fp", 0], ["setv", 0, ["int", 1], ["s", b]], ["fp", 0]]})
+        out.append({"prog": [["newtab_dict", [["a", [5, a, 7]], ["b", [1, 2, 3]]]], ["drop", 0], ["fp", 0],
+                             ["sett", 0, ["cell", 1, 0, b]], ["fp", 0]]})
+        out.append({"prog": [["newtab_dict", [["a", [5, a, 7]], ["b", [1, 2, 3]]]], ["drop", 0], ["fp", 0],
+                             ["colview", 0, 0], ["setv", 0, ["slice", 1, 2, None], ["l", [b]]], ["fp", 0], ["fp", 1]]})
+        out.append({"prog": [["newtab_dict", [["a", [5, a, 7]], ["b", [1, 2, 3]]]], ["drop", 0], ["fp", 0],
+                             ["setattr", 0, 0, ["lit", [5, b, 7]]], ["fp", 0]]})
+    return out
+
+
 def streams(rng, tier):
     n = 300 if tier == "quick" else 4000
-    return [("histories", [{"prog": H.gen_program(rng, rng.randint(10, 40), MIX)} for _ in range(n)])]
+    return [("planted", planted()), ("histories", [{"prog": H.gen_program(rng, rng.randint(10, 40), MIX)} for _ in range(n)])]
 
 
 def observe(case):
